@@ -163,7 +163,9 @@ def cases(tier, mode='func'):
                 [c for c in step_cases(tier, prefix='c07', checks='safety', ops=('PUT',), Ms=[2], few=True, filt=lambda L: L['nkeys'] <= 1, extra=e) if not c.cid.endswith('.v28')] + ctor_cases(tier)
         return step_cases(tier, prefix='c07', checks='safety', ops=('PUT', 'REMOVE', 'REMOVE_IDX', 'GET', 'CLEAR'), Ms=[2, 3], extra={'VF_C07': None}) + ctor_cases(tier)
     if mode == 'safety':
-        cs = step_cases(tier, prefix='c11', checks='safety', leak=True, Ms=[2], safety_owner='C11', few=True, filt=(lambda L: L['nkeys'] <= 1) if q else None, ops=('PUT', 'REMOVE', 'WALK', 'GET') if q else ('PUT', 'GET', 'REMOVE', 'REMOVE_IDX', 'WALK', 'CLEAR'))
+        cs = step_cases(tier, prefix='c11', checks='safety', leak=True, Ms=[2], safety_owner='C11', few=True, filt=(lambda L: L['nkeys'] <= 1) if q else None, ops=('PUT', 'WALK') if q else ('PUT', 'GET', 'REMOVE', 'REMOVE_IDX', 'WALK', 'CLEAR'))
+        if q:   # lookups/removals on every M=2 layout (two keys sharing the last slot as home exercise the wrap-around of the probe loop)
+            cs += step_cases(tier, prefix='c11', checks='safety', leak=True, Ms=[2], safety_owner='C11', ops=('GET', 'REMOVE'))
         if q:   # multi-slot puts under the full safety flags cost 150-350 s each: thorough tier (and C07) only
             cs = [c for c in cs if '.PUT.' not in c.cid or c.cid.endswith('.v1')]
         return cs
